@@ -6,11 +6,13 @@
 // connection loop (server.Manager.Handle) would execute: every non-empty *resp.ArrayData, via ToCommand().
 //
 // Oracle per vector (term = how the reference decoder stopped):
-//   eof, incomplete   delivered commands == vec.c
-//   malformed         delivered commands == vec.c and the parser signals a (non-EOF) error
-//   unspec            vec.c is a prefix of the delivered commands (behaviour after the item is not specified)
-//   always            the channel is closed within the watchdog once the reader is drained (no hang), and the
-//                     deliveries are identical under every read schedule of the same stream.
+//
+//	eof, incomplete   delivered commands == vec.c
+//	malformed         delivered commands == vec.c and the parser signals a (non-EOF) error
+//	unspec            vec.c is a prefix of the delivered commands (behaviour after the item is not specified)
+//	always            the channel is closed within the watchdog once the reader is drained (no hang), and the
+//	                  deliveries are identical under every read schedule of the same stream.
+//
 // A panic in the parser goroutine kills the process (no recover is possible from here): the parent runs this tool
 // as a child, reads -progress (index, byte offset and length of the vector in progress, runs so far) to attribute
 // the death to one vector and restarts behind it with -offset/-index.
@@ -92,7 +94,26 @@ type obs struct {
 var watchdog = 2 * time.Second
 var timer = time.NewTimer(time.Hour)
 
-func runOnce(data []byte, cuts []int) obs {
+// run executes one read schedule. A watchdog expiry is believed only when it repeats with a doubled bound twice
+// (a stalled machine must not look like a parser that never closes its channel).
+func run(data []byte, cuts []int) obs {
+	o := runOnce(data, cuts, watchdog)
+	if o.end != "hang" {
+		return o
+	}
+	for k := 1; k <= 2; k++ {
+		o = runOnce(data, cuts, watchdog<<uint(k))
+		if o.end != "hang" {
+			falseHangs++
+			return o
+		}
+	}
+	return o
+}
+
+var falseHangs int64
+
+func runOnce(data []byte, cuts []int, bound time.Duration) obs {
 	var o obs
 	ctx, cancel := context.WithCancel(context.Background())
 	rd := &chunkReader{data: data, cuts: cuts}
@@ -103,7 +124,7 @@ func runOnce(data []byte, cuts []int) obs {
 		default:
 		}
 	}
-	timer.Reset(watchdog)
+	timer.Reset(bound)
 	ended := false
 	o.end = "closed"
 loop:
@@ -148,6 +169,10 @@ loop:
 			}
 		case <-timer.C:
 			o.end = "hang"
+			go func() { // let the parser goroutine finish if it ever wakes up
+				for range ch {
+				}
+			}()
 			break loop
 		}
 	}
@@ -396,7 +421,7 @@ func main() {
 				var firstCuts []int
 				failed := map[string]bool{}
 				for si, cuts := range schedules {
-					o := runOnce(data, cuts)
+					o := run(data, cuts)
 					runs++
 					if o.end == "hang" {
 						hangs++
@@ -426,7 +451,7 @@ func main() {
 			break
 		}
 	}
-	sum := map[string]interface{}{"vectors": vectors, "runs": runs, "exhaustive_split_vectors": exhaustive, "hangs": hangs,
+	sum := map[string]interface{}{"vectors": vectors, "runs": runs, "exhaustive_split_vectors": exhaustive, "hangs": hangs, "watchdog_expiries_not_repeated": falseHangs,
 		"by_term": byTerm, "by_why": byWhy, "fail_counts": failCount, "last_index": idx}
 	b, _ := json.Marshal(sum)
 	out.WriteString("SUMMARY " + string(b) + "\n")
